@@ -921,6 +921,18 @@ def r_yamlobject_registers_all(ctx, repo):
                     isinstance(x, ast.Attribute) and x.attr == 'yaml_loader' for x in ast.walk(s.value))
                     for s in walk_function(f.node)):
                 loops.append(n)
+    reps = [c for c in A.func_calls(f.node) if isinstance(c.func, ast.Attribute) and c.func.attr in ('add_representer', 'add_multi_representer')
+            and any(isinstance(x, ast.Attribute) and x.attr == 'yaml_dumper' for x in ast.walk(c.func.value))]
+    for c in reps:
+        if c.func.attr == 'add_representer':
+            rule.ok(f.loc(c), 'the class gets an exact-type representer on its dumper')
+        else:
+            rule.fail('%s|multi' % f.qualname, f.module.rel, c.lineno, f.qualname, A.anon_text(c, f.node, 60),
+                      'the YAMLObject class is registered with add_multi_representer: the registration lands in (and copies) the '
+                      'other table, so which dumper subclasses see it follows the wrong inheritance state, and the shipped '
+                      'Dumper\'s multi-representer table changes')
+    if not reps:
+        raise AnalysisError('YAMLObjectMetaclass.__init__: no representer registration found')
     if not loops:
         raise AnalysisError('YAMLObjectMetaclass.__init__: no loop over yaml_loader')
     regs = [n for n in cfg.nodes if n.ast is not None and any(
@@ -1008,11 +1020,11 @@ def r_pairs_from_nodes(ctx, repo):
     for nm in ('construct_yaml_omap', 'construct_yaml_pairs'):
         f = _method(repo, 'constructor.SafeConstructor', nm)
         bad = [c for c in A.func_calls(f.node) if isinstance(c.func, ast.Attribute) and c.func.attr in (
-            'construct_mapping', 'construct_yaml_map') or (isinstance(c.func, ast.Name) and c.func.id == 'dict')]
+            'construct_mapping', 'construct_yaml_map', 'flatten_mapping') or (isinstance(c.func, ast.Name) and c.func.id == 'dict')]
         objs = [c for c in A.func_calls(f.node) if isinstance(c.func, ast.Attribute) and c.func.attr == 'construct_object']
         if bad:
             rule.fail('%s|dict' % f.qualname, f.module.rel, bad[0].lineno, f.qualname, A.anon_text(bad[0], f.node, 60),
-                      '%s builds an entry through a dict: `- {b: 2, b: 3}` collapses to one item and passes the length test, and an '
+                      '%s builds an entry through a dict or flattens it first: `- {b: 2, b: 3}` / `- {<<: {a: 1}}` pass the one-item test, and an '
                       'entry whose key is a sequence or mapping is rejected as unhashable' % nm)
         elif len(objs) >= 2:
             rule.ok(f.loc(), '%s constructs key and value from their nodes' % nm)
@@ -1179,6 +1191,25 @@ def r_bound_method_released(ctx, repo, classes):
                         and isinstance(s.func.value, ast.Attribute) and isinstance(s.func.value.value, ast.Name) \
                         and s.func.value.value.id == sn and any(holds_bound(a) for a in s.args):
                     holders.setdefault(s.func.value.attr, (m, s))
+        for m in c.methods.values():
+            if not m.params:
+                continue
+            sn = m.params[0]
+            for call in A.func_calls(m.node):
+                callee_self = isinstance(call.func, ast.Attribute) and norm(call.func).startswith(sn + '.')
+                if callee_self or (isinstance(call.func, ast.Name) and call.func.id in ('isinstance', 'getattr', 'hasattr', 'callable')):
+                    continue
+                for a in list(call.args) + [k.value for k in call.keywords]:
+                    if isinstance(a, ast.Attribute) and isinstance(a.value, ast.Name) and a.value.id == sn and a.attr in methods \
+                            and not isinstance(call.func, ast.Attribute):
+                        pass
+                    if isinstance(a, ast.Attribute) and isinstance(a.value, ast.Name) and a.value.id == sn and a.attr in methods \
+                            and norm(call.func).split('.')[0] in ('weakref', 'atexit', 'signal', 'threading', 'gc'):
+                        rule.fail('%s|escape|%s' % (m.qualname, norm(call.func)), m.module.rel, call.lineno, m.qualname,
+                                  A.anon_text(call, m.node, 60),
+                                  '%s hands a bound method of the object to %s: that registry keeps the object (and its stream) '
+                                  'alive for as long as the entry exists, so an abandoned loader / dumper is never released'
+                                  % (m.qualname, norm(call.func)))
         if not holders:
             continue
         d = c.methods.get('dispose')
@@ -1817,4 +1848,357 @@ def r_printable_one_test(ctx, repo):
                   % ('a second pattern %s' % bad[0] if bad else 'a condition on the chunk'))
     else:
         rule.ok(f.loc(searches[0]), 'one unconditional NON_PRINTABLE search per chunk')
+    return rule
+
+
+# -------------------------------------------------------------------------------------------- R-REFILL-EXACT
+def r_refill_exact(ctx, repo):
+    from .rules_reader import linear_form
+    rule = ctx.rule('R-REFILL-EXACT', 'peek / prefix / forward ask update() for exactly the look-ahead they need, counted from the current '
+                                      'pointer (index+1, length, length+1): the amount never contains the position in the buffer, so the '
+                                      'reader does not read further ahead the deeper it is in the stream')
+    want = {'peek': 1, 'prefix': 0, 'forward': 1}
+    R = repo.cls('reader.Reader')
+    for name, const in want.items():
+        f = R.methods.get(name)
+        if f is None or len(f.params) < 2:
+            raise AnalysisError('Reader.%s has vanished' % name)
+        p = f.params[1]
+        ups = [c for c in A.func_calls(f.node) if isinstance(c.func, ast.Attribute) and c.func.attr == 'update' and c.args]
+        if not ups:
+            raise AnalysisError('Reader.%s never calls update()' % name)
+        for c in ups:
+            lf = linear_form(c.args[0])
+            lf = {k: v for k, v in (lf or {}).items() if v != 0}
+            if lf == ({p: 1, '': const} if const else {p: 1}):
+                rule.ok(f.loc(c), 'Reader.%s refills %s' % (name, norm(c.args[0])))
+            else:
+                rule.fail('%s|amount' % f.qualname, f.module.rel, c.lineno, f.qualname, A.anon_text(c, f.node, 50),
+                          'Reader.%s asks update() for %s instead of its own look-ahead (%s%s): the amount is a length from the '
+                          'current pointer, so anything else makes the reader pull more (growing with the position in the '
+                          'buffer) or less than needed' % (name, norm(c.args[0]), p, '+%d' % const if const else ''))
+    return rule
+
+
+# ------------------------------------------------------------------------------------- R-SPLIT-OUTSIDE-SIMPLE-KEY
+def r_split_outside_simple_key(ctx, repo):
+    rule = ctx.rule('R-SPLIT-OUTSIDE-SIMPLE-KEY', 'process_scalar lets a scalar writer fold lines (split) only when the scalar is not a '
+                                                  'simple key: a simple key is written on one line')
+    f = _method(repo, 'emitter.Emitter', 'process_scalar')
+    sn = f.params[0]
+    n = 0
+    for c in A.func_calls(f.node):
+        if isinstance(c.func, ast.Attribute) and c.func.attr in ('write_plain', 'write_single_quoted', 'write_double_quoted') \
+                and isinstance(c.func.value, ast.Name) and c.func.value.id == sn:
+            e = c.args[1] if len(c.args) > 1 else next((k.value for k in c.keywords if k.arg == 'split'), None)
+            n += 1
+            if e is None:
+                continue        # default of the writer
+            if isinstance(e, ast.Name):
+                defs = [s for s in walk_function(f.node) if isinstance(s, ast.Assign) and any(
+                    isinstance(t, ast.Name) and t.id == e.id for t in s.targets)]
+                if len(defs) == 1:
+                    e = defs[0].value
+            v = A.const_truth(e, {'%s.simple_key_context' % sn: True})
+            if v is False:
+                rule.ok(f.loc(c), '%s: no folding in a simple key' % c.func.attr)
+            else:
+                rule.fail('%s|%s|split' % (f.qualname, c.func.attr), f.module.rel, c.lineno, f.qualname, A.anon_text(c, f.node, 70),
+                          '%s may be told to fold lines while the scalar is a simple key: the key is broken over two lines and '
+                          'the reader rejects the document' % c.func.attr)
+    if n < 3:
+        raise AnalysisError('process_scalar: scalar writers not found')
+    return rule
+
+
+# -------------------------------------------------------------------------------------- R-STATE-KEYS-SAFE-ONLY
+def r_state_keys_safe_only(ctx, repo):
+    rule = ctx.rule('R-STATE-KEYS-SAFE-ONLY', 'set_python_instance_state checks state keys against the blacklist only when it is not called '
+                                              'for the unsafe loader: the unsafe loader rebuilds every attribute pickle would')
+    f = _method(repo, 'constructor.FullConstructor', 'set_python_instance_state')
+    if 'unsafe' not in f.params:
+        raise AnalysisError('set_python_instance_state has no `unsafe` parameter')
+    cfg = CFG(f.node)
+    edges = []
+    for t in cfg.nodes:
+        if t.kind == 'test' and isinstance(t.ast, ast.Name) and t.ast.id == 'unsafe':
+            edges.append((t, False))
+    calls = [n for n in cfg.nodes if n.ast is not None and any(
+        isinstance(x, ast.Call) and isinstance(x.func, ast.Attribute) and x.func.attr == 'check_state_key' for x in own_exprs(n))]
+    if not calls:
+        raise AnalysisError('set_python_instance_state: check_state_key is never called')
+    for c in calls:
+        if edges and cfg.guarded(c, edges=edges):
+            rule.ok(f.loc(c.ast), 'check_state_key only when not unsafe')
+        else:
+            rule.fail('%s|unsafe-checked' % f.qualname, f.module.rel, c.lineno, f.qualname, A.anon_text(c.ast, f.node, 50),
+                      'a state key is checked against the blacklist also for the unsafe loader: instances with a dunder-named '
+                      '(or `extend`) attribute / slot, which pickle rebuilds, are rejected')
+    return rule
+
+
+# ------------------------------------------------------------------------------------------ R-TZ-SIGN-COMPARED
+def r_tz_sign_compared(ctx, repo):
+    rule = ctx.rule('R-TZ-SIGN-COMPARED', 'the sign of a timestamp\'s UTC offset is only compared and then applied to the whole offset '
+                                          '(hours and minutes together): it is never folded into one component, where "-0" loses it')
+    f = _method(repo, 'constructor.SafeConstructor', 'construct_yaml_timestamp')
+    uses = [x for x in walk_function(f.node) if isinstance(x, ast.Subscript) and A.const_str(x.slice) == 'tz_sign']
+    if not uses:
+        raise AnalysisError('construct_yaml_timestamp: the tz_sign group is not read')
+    for u in uses:
+        par = getattr(u, '_parent', None)
+        ok = isinstance(par, ast.Compare) or isinstance(par, (ast.If, ast.BoolOp, ast.UnaryOp, ast.IfExp)) or (
+            isinstance(par, ast.Assign) and par.value is u)
+        if ok:
+            rule.ok(f.loc(u), 'tz_sign is tested')
+        else:
+            rule.fail('%s|tz-sign' % f.qualname, f.module.rel, u.lineno, f.qualname, A.anon_text(par, f.node, 60),
+                      'the sign of the UTC offset is combined with one component of the offset (e.g. int(sign + hour)): for an '
+                      'hour of 0 the sign is lost, so -00:30 becomes +00:30')
+    # and a negation of the whole delta exists
+    neg = [x for x in walk_function(f.node) if isinstance(x, ast.UnaryOp) and isinstance(x.op, ast.USub) and isinstance(x.operand, ast.Name)]
+    if not neg:
+        rule.fail('%s|no-negation' % f.qualname, f.module.rel, f.node.lineno, f.qualname, 'delta = -delta',
+                  'no negation of the whole offset found: the sign must apply to hours and minutes together')
+    return rule
+
+
+# --------------------------------------------------------------------------------------- R-MERGE-VALUE-REJECTED
+def r_merge_value_rejected(ctx, repo):
+    from .rules_r6 import _flatten
+    rule = ctx.rule('R-MERGE-VALUE-REJECTED', 'in flatten_mapping a merge value (or an entry of a merge list) that is neither a mapping nor '
+                                              'a sequence always ends in ConstructorError: no node under `<<` is skipped without being '
+                                              'constructed')
+    f = _flatten(repo)
+    cfg = CFG(f.node)
+
+    def atom(t):
+        if isinstance(t, ast.Call) and isinstance(t.func, ast.Name) and t.func.id == 'isinstance' and len(t.args) == 2 \
+                and isinstance(t.args[0], ast.Name) and t.args[0].id != f.params[1]:
+            kinds = {norm(k).split('.')[-1] for k in (t.args[1].elts if isinstance(t.args[1], ast.Tuple) else [t.args[1]])}
+            if kinds <= {'MappingNode', 'SequenceNode', 'CollectionNode'}:
+                return False        # the merge value / list entry is of no collection kind
+            return None
+        if isinstance(t, ast.Compare) and len(t.ops) == 1 and isinstance(t.ops[0], ast.Eq) and \
+                A.const_str(t.comparators[0]) == 'tag:yaml.org,2002:merge':
+            return True
+        return None
+    # start at the merge branch: the true edge of the merge-tag test
+    starts = []
+    for t in cfg.nodes:
+        if t.kind == 'test' and isinstance(t.ast, ast.Compare) and A.const_str(t.ast.comparators[0]) == 'tag:yaml.org,2002:merge' \
+                and isinstance(t.ast.ops[0], ast.Eq):
+            starts += [m for (m, lab) in cfg.succ[t] if lab is True]
+    if not starts:
+        raise AnalysisError('flatten_mapping: the test of the merge tag was not found')
+    r = A.cfg_reach_under(cfg, atom, starts=starts, follow_exc=False)
+    heads = [n for n in cfg.nodes if n.kind == 'test' and isinstance(n.stmt, ast.While)]
+    leak = [x for x in cfg.normal_exits() if x in r] + [h for h in heads if h in r]
+    if leak:
+        rule.fail('%s|unrejected' % f.qualname, f.module.rel, starts[0].lineno, f.qualname, 'merge value of another kind',
+                  'a `<<` value that is neither a mapping nor a sequence (a scalar: empty, null, or carrying any tag) can pass '
+                  'through flatten_mapping without an error: the node is dropped unconstructed, so whatever tag it carries is '
+                  'accepted')
+    else:
+        rule.ok(f.loc(), 'a merge value of another kind always raises')
+    return rule
+
+
+# -------------------------------------------------------------------------------------- R-VALUE-CHAIN-VISITED
+def r_value_chain_visited(ctx, repo):
+    rule = ctx.rule('R-VALUE-CHAIN-VISITED', 'SafeConstructor.construct_scalar follows `=` entries only through nodes it has not seen: '
+                                             'every step is preceded by a membership test in a set to which the node is then added (or the '
+                                             'function does not loop / recurse at all)')
+    f = _method(repo, 'constructor.SafeConstructor', 'construct_scalar')
+    loops = [l for l in walk_function(f.node) if isinstance(l, ast.While)]
+    rec = [c for c in A.func_calls(f.node) if isinstance(c.func, ast.Attribute) and c.func.attr == f.name
+           and isinstance(c.func.value, ast.Name) and c.func.value.id == f.params[0]]
+    if not loops and not rec:
+        rule.ok(f.loc(), 'no chain is followed')
+        return rule
+    adds = {c.func.value.id for c in A.func_calls(f.node) if isinstance(c.func, ast.Attribute) and c.func.attr == 'add'
+            and isinstance(c.func.value, ast.Name)}
+    tests = [t for t in walk_function(f.node) if isinstance(t, ast.Compare) and len(t.ops) == 1 and isinstance(t.ops[0], (ast.In, ast.NotIn))
+             and isinstance(t.comparators[0], ast.Name) and t.comparators[0].id in adds]
+    if tests and not rec:
+        rule.ok(f.loc(tests[0]), 'visited set tested and extended on every step')
+    else:
+        at = (loops or rec)[0]
+        rule.fail('%s|unvisited' % f.qualname, f.module.rel, at.lineno, f.qualname, A.anon_text(at if isinstance(at, ast.Call) else at.test, f.node, 50),
+                  'the chain of `=` entries is followed without a record of the nodes already visited: a chain that runs into a '
+                  'cycle (the node graph can be cyclic through aliases) is followed forever or until RecursionError')
+    return rule
+
+
+# ------------------------------------------------------------------------------------- R-NO-IMPORT-MACHINERY
+def r_no_import_machinery(ctx, repo):
+    rule = ctx.rule('R-NO-IMPORT-MACHINERY', 'the package does not use the import machinery (importlib, pkgutil, imp, runpy, zipimport): '
+                                             'looking a module up there imports its parent packages - a change of process-wide state that '
+                                             'later calls observe')
+    n = 0
+    bad = ('importlib', 'pkgutil', 'imp', 'runpy', 'zipimport')
+    for m in repo.modules.values():
+        if m.kind != 'py':
+            continue
+        for x in ast.walk(m.tree):
+            names = []
+            if isinstance(x, ast.Import):
+                names = [a.name for a in x.names]
+            elif isinstance(x, ast.ImportFrom) and x.module:
+                names = [x.module]
+            n += len(names)
+            for nm in names:
+                if nm.split('.')[0] in bad:
+                    rule.fail('%s|%s' % (m.name, nm), m.rel, x.lineno, m.name, 'import %s' % nm,
+                              '%s imports %s: its find_spec / import_module functions import parent packages as a side effect, so '
+                              'a load that fails still changes sys.modules and a later load behaves differently' % (m.rel, nm))
+    rule.instances += 1
+    rule.ok('package', '%d import statements examined' % n)
+    return rule
+
+
+# ------------------------------------------------------------------------------------- R-APPLY-STATE-IF-PRESENT
+def r_apply_state_if_present(ctx, repo):
+    rule = ctx.rule('R-APPLY-STATE-IF-PRESENT', 'construct_python_object_apply applies a state only when the node carried a non-empty one: '
+                                                'a reduction without state never calls __setstate__ (pickle does not either)')
+    f = _method(repo, 'constructor.FullConstructor', 'construct_python_object_apply')
+    cfg = CFG(f.node)
+    calls = [n for n in cfg.nodes if n.ast is not None and any(
+        isinstance(x, ast.Call) and isinstance(x.func, ast.Attribute) and x.func.attr == 'set_python_instance_state' for x in own_exprs(n))]
+    if not calls:
+        raise AnalysisError('construct_python_object_apply: set_python_instance_state is not called')
+    for c in calls:
+        call = [x for x in own_exprs(c) if isinstance(x, ast.Call) and isinstance(x.func, ast.Attribute)
+                and x.func.attr == 'set_python_instance_state'][0]
+        st = call.args[1] if len(call.args) > 1 else None
+        if not isinstance(st, ast.Name):
+            raise AnalysisError('construct_python_object_apply: the state argument is not a local')
+        edges = [(t, True) for t in cfg.nodes if t.kind == 'test' and isinstance(t.ast, ast.Name) and t.ast.id == st.id]
+        if edges and cfg.guarded(c, edges=edges):
+            rule.ok(f.loc(c.ast), 'state applied only when it is non-empty')
+        else:
+            rule.fail('%s|state-guard' % f.qualname, f.module.rel, c.lineno, f.qualname, A.anon_text(c.ast, f.node, 60),
+                      'the state is applied on a path where it was not tested for being non-empty: the placeholder for "no state" '
+                      'is an empty dict, so every python/object/apply and python/object/new node calls __setstate__({}) on classes '
+                      'that define it (a value rebuilt by its constructor is reset)')
+    return rule
+
+
+# -------------------------------------------------------------------------------------- R-DOC-INDICATOR-SCALARS
+def r_doc_indicator_scalars(ctx, repo):
+    rule = ctx.rule('R-DOC-INDICATOR-SCALARS', 'analyze_scalar marks every scalar that begins with "---" or "..." (including the scalar that '
+                                               'is exactly that) as containing indicators: such text is never written plain, where the '
+                                               'scanner would read a document marker')
+    f = _method(repo, 'emitter.Emitter', 'analyze_scalar')
+    p = f.params[1]
+    # the test in front of the per-character loop that mentions the marker literals
+    tests = [s for s in f.node.body if isinstance(s, ast.If) and any(
+        isinstance(x, ast.Constant) and x.value in ('---', '...') for x in ast.walk(s.test))]
+    if not tests:
+        raise AnalysisError('analyze_scalar: the document-marker test was not found')
+    t = tests[0]
+    for probe in ('---', '...', '--- a', '...\n', '---x', '...b'):
+        v = A.const_truth(t.test, {p: probe})
+        if v is True:
+            rule.ok(f.loc(t), '%r is treated as beginning with a document marker' % probe)
+        else:
+            rule.fail('%s|doc-marker|%s' % (f.qualname, probe), f.module.rel, t.lineno, f.qualname, A.anon_text(t.test, f.node, 70),
+                      'the scalar %r is not recognised as beginning with a document marker: written plain at the start of a line '
+                      'it is read back as a document boundary (an empty scalar, or unparsable text)' % probe)
+    return rule
+
+
+# ------------------------------------------------------------------------------------------ R-FOLD-SINGLE-SPACE
+def r_fold_single_space(ctx, repo):
+    from .rules_reader import linear_form
+    rule = ctx.rule('R-FOLD-SINGLE-SPACE', 'write_plain and write_single_quoted replace a run of spaces by a line break only when the run is '
+                                           'a single space (start + 1 == end): folding gives back exactly one space on load')
+    for nm in ('write_plain', 'write_single_quoted'):
+        f = _method(repo, 'emitter.Emitter', nm)
+        sn = f.params[0]
+        sites = [c for c in A.func_calls(f.node) if isinstance(c.func, ast.Attribute) and c.func.attr == 'write_indent'
+                 and any(any(isinstance(x, ast.Name) and x.id == 'split' for x in ast.walk(g.test)) for g, br in A.guarding_ifs(c, f.node))]
+        if not sites:
+            raise AnalysisError('%s: the folding site (write_indent under `split`) was not found' % nm)
+        for c in sites:
+            ok = False
+            for g, br in A.guarding_ifs(c, f.node):
+                if br != 'body':
+                    continue
+                for k in A.conjuncts(g.test):
+                    if isinstance(k, ast.Compare) and len(k.ops) == 1 and isinstance(k.ops[0], ast.Eq):
+                        a, b = linear_form(k.left), linear_form(k.comparators[0])
+                        if a is not None and b is not None:
+                            d = dict(a)
+                            for kk, v in b.items():
+                                d[kk] = d.get(kk, 0) - v
+                            d = {kk: v for kk, v in d.items() if v != 0}
+                            names = sorted(kk for kk in d if kk)
+                            if len(names) == 2 and abs(d.get('', 0)) == 1 and sorted(d[n_] for n_ in names) == [-1, 1]:
+                                ok = True
+            if ok:
+                rule.ok(f.loc(c), '%s folds single spaces only' % nm)
+            else:
+                rule.fail('%s|fold-run' % f.qualname, f.module.rel, c.lineno, f.qualname, A.anon_text(c, f.node, 40),
+                          '%s folds at a run of spaces without testing that the run is one space long: a run of two or more spaces '
+                          'beyond the width is replaced by one line break and loads back as a single space' % nm)
+    return rule
+
+
+# ---------------------------------------------------------------------------------------- R-EMITTER-LOOKAHEAD-TABLE
+def r_emitter_lookahead_table(ctx, repo):
+    rule = ctx.rule('R-EMITTER-LOOKAHEAD-TABLE', 'need_more_events waits for 1 further event after DocumentStart, 2 after SequenceStart and 3 '
+                                                 'after MappingStart: what check_empty_document / check_empty_sequence / check_empty_mapping '
+                                                 'and check_simple_key look at is in the queue when they run')
+    f = _method(repo, 'emitter.Emitter', 'need_more_events')
+    cfg = CFG(f.node)
+    want = {'DocumentStartEvent': 1, 'SequenceStartEvent': 2, 'MappingStartEvent': 3}
+    got = {}
+    for n in cfg.nodes:
+        if n.ast is None:
+            continue
+        for x in own_exprs(n):
+            if isinstance(x, ast.Call) and isinstance(x.func, ast.Attribute) and x.func.attr == 'need_events' and x.args \
+                    and isinstance(x.args[0], ast.Constant):
+                k = x.args[0].value
+                for t in cfg.nodes:
+                    if t.kind == 'test' and isinstance(t.ast, ast.Call) and norm(t.ast.func) == 'isinstance' and len(t.ast.args) == 2 \
+                            and isinstance(t.ast.args[1], ast.Name) and t.ast.args[1].id in want:
+                        # the call is reached through the true edge of this test and not through its false edge
+                        if cfg.guarded(n, edges=[(t, True)]):
+                            got[t.ast.args[1].id] = k
+    for cls, k in want.items():
+        if got.get(cls) == k:
+            rule.ok(f.loc(), '%s -> need_events(%d)' % (cls, k))
+        else:
+            rule.fail('%s|%s' % (f.qualname, cls), f.module.rel, f.node.lineno, f.qualname, 'need_events(%d) after %s' % (k, cls),
+                      'need_more_events does not wait for %d further event(s) after a %s (found: %s): the emptiness / simple-key '
+                      'checks then run without their look-ahead and choose the wrong form (e.g. an implicit first document with '
+                      'an empty root loses its "---")' % (k, cls, got.get(cls)))
+    return rule
+
+
+# ------------------------------------------------------------------------------------------ R-WINDOW-COMPACTED
+def r_window_compacted(ctx, repo):
+    rule = ctx.rule('R-WINDOW-COMPACTED', 'Reader.update drops the consumed part of the window (buffer = buffer[pointer:], pointer = 0) on '
+                                          'every call before it measures how much look-ahead is there: len(buffer) in the refill loop '
+                                          'counts unconsumed characters only')
+    f = _method(repo, 'reader.Reader', 'update')
+    cfg = CFG(f.node)
+    sn = f.params[0]
+    zero = [n for n in cfg.nodes if n.kind == 'stmt' and isinstance(n.ast, ast.Assign) and any(
+        isinstance(t, ast.Attribute) and t.attr == 'pointer' and norm(t.value) == sn for t in n.ast.targets)
+        and isinstance(n.ast.value, ast.Constant) and n.ast.value.value == 0]
+    loops = [n for n in cfg.nodes if n.kind == 'test' and isinstance(n.stmt, ast.While) and any(
+        isinstance(x, ast.Attribute) and x.attr == 'buffer' for x in ast.walk(n.ast))]
+    if not loops:
+        raise AnalysisError('Reader.update: the refill loop was not found')
+    for l in loops:
+        if zero and cfg.guarded(l, nodes=zero):
+            rule.ok(f.loc(l.ast), 'the window is compacted before the refill loop')
+        else:
+            rule.fail('%s|compaction' % f.qualname, f.module.rel, l.lineno, f.qualname, A.anon_text(l.ast, f.node, 50),
+                      'the refill loop can run while consumed characters are still in the buffer (the pointer was not reset on '
+                      'every path): len(buffer) then over-states the look-ahead, the requested characters are not fetched and a '
+                      'later read runs past the window - only for input delivered in pieces')
     return rule
